@@ -43,6 +43,7 @@ def profile(tier, k):
         p.max_type_depth, p.max_ns_depth, p.max_decls, p.max_tparams, p.max_tvalues = 8, 6, 12, 3, 5
     p.p_keyword_name = 0.15
     p.layout_defaults = True
+    p.fwd_of_defined = True
     p.p_default = 0.4
     return p
 
